@@ -2,9 +2,95 @@ from vf.propdefs import COMMON_TRUST
 
 PROP = dict(
     level="proof",
-    units=["memory", "meminstr"],
-    level_text="(draft)",
-    level_note="(draft)",
-    trusted=COMMON_TRUST + [],
-    assumptions=[],
+    units=["memory", "meminstr", "callret"],
+    technique="Verus contracts on the extracted SharedMemory methods (local struct, unbounded), on resize_memory / the memory "
+              "instructions / insert_call_outcome on the REAL Interpreter through the contract ledger, plus lemmas over the contracts",
+    level_text="PROOF (Verus, unbounded: all buffer contents, all lengths, all nesting depths, all operand values, all forks). "
+               "Unit memory: the SharedMemory struct and new, with_capacity, new_context, free_context, len, is_empty, "
+               "current_expansion_cost, resize, slice, slice_range, slice_mut, get_byte, get_word, get_u256, set_byte, set_word, "
+               "set_u256, set, set_data, copy, context_memory, context_memory_mut are extracted verbatim from "
+               "interpreter/shared_memory.rs on each run (num_words: proved in unit gascalc, used through the ledger) and verified "
+               "against the view (mem_parents = parent frames' segments outermost first, mem_ctx = current frame's bytes) with the "
+               "invariant mem_wf (checkpoints non-decreasing, all <= buffer.len(), last_checkpoint == checkpoints.last() or 0): "
+               "new_context pushes the caller's bytes as innermost parent and the child starts EMPTY; free_context gives back the "
+               "innermost parent segment byte for byte and drops it from the parents (the unsafe set_len(old_checkpoint) is shown "
+               "to shrink; no checkpoint => nothing changes); resize(n >= len) appends n - len ZERO bytes; every setter / copy / "
+               "set_data states the WHOLE resulting image of the current frame, len unchanged, parents unchanged; every getter "
+               "returns exactly the bytes / the big-endian word; all bounds are preconditions proved at every caller, and the "
+               "unchecked std operations (set_len, get_unchecked(_mut)) carry their safety preconditions, proved at each use. "
+               "Sequences: mem_apply / mem_apply_all run the REAL methods for any finite sequence of push / pop / resize / set_byte / "
+               "set_u256 / copy and are proved equal to the list model mem_run; lemma_child_frame_invisible + mem_child_roundtrip: "
+               "new_context; ANY balanced sequence of child operations nested to ANY depth; free_context is the identity on the "
+               "parent's bytes, size and all outer frames. lemma_set_window: `set` leaves len and every byte outside the window "
+               "unchanged. Unit meminstr (real Interpreter / SharedMemory / Gas / Stack): resize_memory charges exactly "
+               "C_mem(ceil(new/32)) - C_mem(ceil(len/32)), C_mem(a) = 3a + floor(a^2/512) (Yellow Paper, literal numbers) iff "
+               "affordable and then len' == 32*ceil(new/32) with the old bytes kept and the new bytes zero, else returns false and "
+               "gas and memory are unchanged (whole-object equality); MLOAD / MSTORE / MSTORE8 / MSIZE / MCOPY with the verbatim "
+               "gas! pop! pop_top! push! as_usize_or_fail! resize_memory! check! gas_or_fail! macros: gas 3 (MSIZE 2, MCOPY 3 + 3 per "
+               "word) + expansion, every failure code (OutOfGas, StackUnderflow, StackOverflow, InvalidOperandOOG for operands >= "
+               "2^64, MemoryOOG, NotActivated before Cancun) with what was charged / popped and memory untouched, exact stack effect "
+               "(whole-sequence view), exact memory image (big-endian 32-byte word at the offset; value mod 256; memmove on the grown "
+               "memory), MSIZE == len (a multiple of 32 whenever the frame's memory is, and every instruction keeps it so), memory "
+               "only grows, the PARENTS' segments are never touched, every other Interpreter field unchanged. Unit callret: "
+               "Interpreter::insert_call_outcome (+ CallOutcome::instruction_result / gas / memory_start) verbatim: parent memory "
+               "length unchanged, outer frames unchanged, every byte outside [out_offset, out_offset + min(out_len, |ret|)) unchanged, "
+               "exact window image on success / revert, memory object untouched otherwise.",
+    level_note="FINDING (kept as finding obligations, never counted as discharged, listed in known_findings.txt with a witness run on the "
+               "real crate): SharedMemory::resize computes `last_checkpoint + new_size` unchecked; resize_memory(new_size = 2^64-32) is "
+               "affordable with >= 1765411053929234428 gas because memory_gas saturates from 2^32 words on (C14 finding), and in a child "
+               "frame the sum wraps: release truncates the shared buffer below the child's checkpoint and returns true (then len() wraps, "
+               "accesses skip expansion and read/write out of bounds: observed SIGSEGV), debug panics. Reachable only with gas_limit >= "
+               "~1.77e18 (inside the u64 domain, on no real chain). The verified contracts therefore hold under the FRAME INVARIANT "
+               "mem_gas_inv: C_mem(ceil(len/32)) + gas_remaining < 2^55 (true at frame start iff gas_limit < 2^55 with empty memory; "
+               "proved preserved by resize_memory and by every memory instruction), and SharedMemory::resize has the precondition "
+               "new_size <= isize::MAX. Stated deviations (explicit clauses, not weakenings): MSTORE / MSTORE8 / MCOPY pop their "
+               "operands BEFORE the offset / expansion checks, so on InvalidOperandOOG / MemoryOOG (and MCOPY OutOfGas) the operands "
+               "are already popped (unobservable: an exceptional halt discards the frame's stack); MCOPY with len == 0 charges 3 and "
+               "touches nothing whatever dst/src are; free_context without a checkpoint is a no-op; `set` with an empty value is a "
+               "no-op whatever the offset is. Text changes to extracted code beyond the extractor's standard ones (recorded as subst): "
+               "slice_range's parameter PATTERN `range @ Range { start, end }: Range<usize>` -> parameter `__arg0` + first statement "
+               "`let range @ Range { start, end } = __arg0;` (rustc's own desugaring; Verus accepts only identifier parameters; body "
+               "otherwise verbatim); `crate::gas::` -> `revm_interpreter::gas::` and `gas::memory_gas` -> `crate::gas::memory_gas` "
+               "(paths); check!: `<SPEC as $crate::primitives::Spec>::SPEC_ID` -> `spec_id_exec::<SPEC>()`, `if const {` -> `if {`; "
+               "as_usize_or_fail_ret!: `) | (` -> `) || (`; `U256::ZERO` -> `U256_ZERO`. The `#[cfg(feature = \"memory_limit\")]` field, "
+               "struct-literal entry and macro statement are kept VERBATIM and stripped by rustc exactly as in the default-feature "
+               "build (the unit crate defines no feature); new_with_memory_limit / limit_reached (cfg'd out by default) are not extracted. "
+               "NOT verified: CallOutcome::memory_length (its body is the PROVIDED trait method ExactSizeIterator::len of Range<usize>, "
+               "which Verus cannot specify; assumed: end - start, 0 if empty); EMPTY_SHARED_MEMORY const, Debug / Default impls.",
+    trusted=COMMON_TRUST + [
+        "unit memory, std (assumed contracts WITH safety preconditions, proved at each call): Vec::set_len (requires new_len <= len; "
+        "ensures take(new_len)), <[T]>::get_unchecked / get_unchecked_mut for Range<usize> (requires start <= end <= len; result is "
+        "the subrange / writes go back to exactly that subrange), <[T]>::fill, core::cmp::min / max for usize",
+        "vstd's own specifications of Vec::with_capacity / push / pop / last / len / resize, Option::cloned / unwrap_or_default / unwrap, "
+        "<[T]>::get(range) / get_mut(range) / copy_from_slice / copy_within / is_empty / len / index, Result::unwrap, try_into/into blanket impls, "
+        "usize::saturating_add, unreachable!/debug_assert! (must be proved unreachable / true)",
+        "std fact (axiom_vec_u8_len / axiom_slice_u8_len): a Vec<u8> / &[u8] never holds more than isize::MAX bytes; allocation failure "
+        "(capacity overflow, OOM) is divergence and outside the partial-correctness model, as in vstd's Vec::resize contract",
+        "units/prelude/b256.rs (alloy-primitives FixedBytes<N>, seen through its N bytes fb_bytes): TryFrom<&[u8]> (Ok iff len == N, same "
+        "bytes), Index<RangeFull> (`&value[..]` = the N bytes), From<B256> for U256 = big-endian integer of the 32 bytes",
+        "units/prelude/ruint.rs: Uint::to_be_bytes::<32> (byte i = floor(v / 256^(31-i)) mod 256), Uint::byte, as_limbs + little-endian "
+        "limb axiom, Uint::from::<usize|i32>, uval < 2^256",
+        "units/prelude/bytesview.rs (unit callret): alloy Bytes / bytes::Bytes Deref chain to the byte string bytes_view, Bytes::len",
+        "units/prelude/spec.rs: spec_id_exec::<SPEC>() returns <SPEC as Spec>::SPEC_ID",
+        "CallOutcome::memory_length == end - start (0 if start > end): assumed, body not verifiable (provided trait method Range::len)",
+        "ledger: Gas::record_cost / erase_cost / record_refund / remaining / refunded (unit gas), Stack::len / top_unsafe / pop2_unsafe / "
+        "pop3_unsafe / push (unit stack), num_words / memory_gas / memory_gas_for_len / verylowcopy_cost / SpecId::is_enabled_in (unit "
+        "gascalc), the SharedMemory methods (unit memory), resize_memory (unit meminstr), CallOutcome getters (unit callret): the compiled "
+        "functions the callers link against are the source text proved in those units (same tree, same run)",
+        "WIRING (not under any function contract): run_the_loop / the frame handlers call SharedMemory::new_context when a frame is created "
+        "and free_context when it returns, in matched pairs, and call insert_call_outcome on the PARENT's interpreter after free_context; "
+        "get_memory_input_and_out_ranges (CALL family) expands the parent's memory over the output window before the call; the dispatch of "
+        "opcodes 0x51/0x52/0x53/0x59/0x5e to these functions (C05)",
+    ],
+    assumptions=[
+        "64-bit target (`global size_of usize == 8`), as the baseline build",
+        "frame invariant mem_gas_inv(shared_memory, gas): C_mem(ceil(len/32)) + gas_remaining < 2^55 on entry of resize_memory and of "
+        "every memory instruction (holds for every frame whose gas limit is < 2^55 = 3.6e16; preserved by everything under contract); "
+        "outside it: finding resize_wraps_usize_with_huge_gas",
+        "mem_wf(shared_memory), gas_wf(gas) (and stack_wf for MSIZE / insert_call_outcome) on entry: representation invariants, established "
+        "by new / Gas::new / Stack::new and preserved by every method under contract",
+        "insert_call_outcome: call_outcome.result.result != FatalExternalError (the code panics), the returned gas was forwarded from this "
+        "frame before (erase_cost precondition), the refund sum fits i64, and a non-empty window lies inside the parent's memory",
+        "default cargo features (no memory_limit)",
+    ],
 )
